@@ -60,3 +60,22 @@ Print Assumptions C04_ptr_absent_optional.
 Theorem C04_engine_computes_semantics : forall m s dat d, run m s dat d = sem_run m s dat d.
 Proof. exact run_is_sem_run. Qed.
 Print Assumptions C04_engine_computes_semantics.
+
+(** Preprocess: what is absent is decided on the function's output, by the rule of the mode — the
+    wrapped schema parses that output as its input (Parse) or validates it in place (Validate) *)
+Theorem C04_preprocess_output_is_parsed : forall pf e v v' d e0, pre_parse pf v = Some (inl v') ->
+  sem Parse (SPre pf e) (DVal v) d e0
+  = ((rcall (pre_id pf) CbPre None ++ fst (sem Parse e (DVal v') d e0))%list, snd (sem Parse e (DVal v') d e0)).
+Proof. exact preprocess_output_is_parsed. Qed.
+Print Assumptions C04_preprocess_output_is_parsed.
+Theorem C04_preprocess_output_is_validated : forall pf e dat d d' e0, pre_valid pf d = inl d' ->
+  sem Validate (SPre pf e) dat d e0
+  = ((rcall (pre_id pf) CbPre (Some d) ++ fst (sem Validate e (DVal VNil) d' e0))%list, snd (sem Validate e (DVal VNil) d' e0)).
+Proof. exact preprocess_output_is_validated. Qed.
+Print Assumptions C04_preprocess_output_is_validated.
+Theorem C04_preprocess_blank_output_is_absent : forall pf p v v' d e0 rt, pre_parse pf v = Some (inl v') -> parse_zero v' = true ->
+  p_def p = None -> p_req p = Some rt -> p_catch p = None -> p_pts p = [] ->
+  sem Parse (SPre pf (SPrim p)) (DVal v) d e0
+  = ((rcall (pre_id pf) CbPre None ++ [RI [] (fun q => mk_test_issue q (dtype_of (p_kind p)) rt)])%list, d).
+Proof. exact preprocess_blank_output_is_absent. Qed.
+Print Assumptions C04_preprocess_blank_output_is_absent.
